@@ -34,6 +34,17 @@ Definition truth_name (files : list gfile) (maps : list gmapping) (fr : nat * Z)
 Definition truth_samples (files : list gfile) (ps : list gprofile) : list (list string * Z) :=
   flat_map (fun p => map (fun s => (map (truth_name files (gp_maps p)) (fst s), gp_scale p * snd s)) (gp_samples p)) ps.
 
+(* The statement speaks about addresses whose owning segment is identifiable: an own byte of a
+   linker-made segment of the loaded file, the only PT_LOAD header whose file range contains its file
+   offset (otherwise an error -- an unsymbolized mapping -- is the allowed answer). *)
+Definition frame_in_scope (files : list gfile) (maps : list gmapping) (fr : nat * Z) : bool :=
+  let m := nth (fst fr) maps gmapping0 in
+  let ef := gf_elf (file_at files (gm_truth m)) in
+  existsb (fun p => seg_okb p && load_okb p (gm_bias m) && ownb p (gm_bias m) (snd fr) &&
+                    sole_owner ef p (gm_bias m) (snd fr)) (e_progs ef).
+Definition world_in_scope (files : list gfile) (ps : list gprofile) : bool :=
+  forallb (fun p => forallb (fun s => forallb (frame_in_scope files (gp_maps p)) (fst s)) (gp_samples p)) ps.
+
 Fixpoint agg_eqb (a b : list (string * Z)) : bool :=
   match a, b with
   | [], [] => true
